@@ -25,7 +25,7 @@ The two mutants must be different in kind (different code site or different fail
 
 ## How to work
 - Python: `/venv/bin/python` (pynenc's dependencies are installed; `PYTHONPATH={wt}` makes your worktree the imported package — verify with `python -c "import pynenc; print(pynenc.__file__)"`).
-- Read the anchored source files first. Then for each mutant: edit the worktree, run the most relevant existing tests, e.g. `cd {wt} && PYTHONPATH={wt} /venv/bin/python -m pytest -q -p no:cacheprovider pynenc_tests/unit/<area> > /tmp/mut-{pid.lower()}/log.txt 2>&1` (ALWAYS redirect pytest output to a file and read the tail of the file; never pipe it — some tests spawn processes that keep pipes open; do not run the whole suite, it takes 6 minutes — run the unit and integration directories related to the files you touched; skip `pynenc_tests/integration/combinations/test_parallelize_performance.py`), write the demo, check it fails with the patch and passes without (NEVER use `git stash` — it is shared between worktrees; use `git diff > /tmp/mut-{pid.lower()}/cur.patch; git checkout -- .` and `git apply /tmp/mut-{pid.lower()}/cur.patch`).
+- Read the anchored source files first. Then for each mutant: edit the worktree, run the most relevant existing tests, e.g. `cd {wt} && PYTHONPATH={wt} /venv/bin/python -m pytest -q -p no:cacheprovider pynenc_tests/unit/<area> > /tmp/mut-{pid.lower()}/log.txt 2>&1` (ALWAYS redirect pytest output to a file and read the tail of the file; never pipe it — some tests spawn processes that keep pipes open; do not run the whole suite (6 minutes) and do NOT run `pynenc_tests/integration/combinations` at all (multi-process, slow, flaky under load; the maintainer runs the full suite separately) — run only the unit directories and the small integration directories related to the files you touched, at most two pytest runs per mutant), write the demo, check it fails with the patch and passes without (NEVER use `git stash` — it is shared between worktrees; use `git diff > /tmp/mut-{pid.lower()}/cur.patch; git checkout -- .` and `git apply /tmp/mut-{pid.lower()}/cur.patch`).
 - Save each mutant as `{out}/m1/` and `{out}/m2/` containing: `patch.diff` (from `git -C {wt} diff`, must apply with `git apply` on a clean checkout of HEAD), `demo.py` (+ helper modules), and `notes.md` (what the change is, why a maintainer might make it, why the tests do not notice, exactly what it needs in order to manifest, which tests you ran and their result).
 - Leave the worktree CLEAN at the end (`git -C {wt} checkout -- . && git -C {wt} status --short` shows nothing).
 
